@@ -54,5 +54,5 @@ PLAN = {
     "C11": {"runs": [seq("c11", 200, 3000), eng("xfer", "c13", 40, 400), eng("linz", "c08cleanup", 800, 8000)]},
     "C12": {"runs": [seq("c12", 200, 3000)],
             "trusted_extra": ["float64 evaluation of n*frac is idealised by exact rationals; one entry of slack only within 2^-20 of an integer"]},
-    "C18": {"runs": [seq("c07", 150, 3000), seq("c12", 80, 1000), eng("fo", "c02", 150, 3000), eng("linz", "c08", 600, 20000), eng("linz", "c18del", 800, 8000)]},
+    "C18": {"runs": [seq("c07", 150, 3000), seq("c12", 80, 1000), eng("fo", "c02", 150, 3000), eng("linz", "c08", 600, 20000), eng("linz", "c18del", 800, 8000), eng("conserve", "c18all", 200, 4000)]},
 }
